@@ -31,14 +31,22 @@
      expansion that produces the entries) and the final proc.Compact(obj, nil,
      options), the only place where safe mode can reject.
 
+   * the steps after the dataset exists (merklize.go:1590-1611, 1414-1430):
+     EntriesFromRDFWithHasher (its error is returned), one KeyValueMtEntries + mt.Add
+     per entry (the first error is returned), on a tree that is a new one or the
+     caller's ([mtree]: leaves, number of Add calls, the Add call that fails; Add on an
+     occupied key fails).  [merklize_gen] with [faults] = the same pipeline with one
+     of these checks switched off: refutation witnesses only.
+
    NOT modelled (abstract parameters of [merklize_doc], see the record [backend]):
-   the result of expansion, ToRDF, URDNA2015, EntriesFromRDF, the tree, compaction.
+   the result of expansion, ToRDF, URDNA2015, WHICH entries EntriesFromRDF returns
+   (RDF/Model.v models that), the hashes of an entry, compaction; the tree's root.
    Out of the subset (the model answers Err "unsupported..."): @reverse term
    definitions, @import, container maps (@index/@language/@id/@type containers with
    an object value).  Ignored: @protected, @base, @language, @direction, @version,
    @nest/@index members of term definitions, the IRI-like-term consistency check.
    IsAbsoluteIri (url.Parse) is approximated by RFC 3986 scheme syntax. *)
-From Coq Require Import List String Ascii Bool Arith NArith.
+From Coq Require Import List String Ascii Bool Arith NArith ZArith.
 From GSP Require Import Base.Prelude.
 Import ListNotations.
 Open Scope string_scope.
@@ -658,24 +666,41 @@ Definition view_normalize (l : option dloader) : lview :=
 Definition view_compact (l : option dloader) : lview :=
   match l with Some d => dl_compact d | None => nil_view end.
 
+(* The merkle tree as far as MerklizeJSONLD is concerned: the leaves added so far,
+   the number of Add calls so far, and — for a caller-supplied tree whose storage
+   may fail — the index (0-based) of the Add call that fails.  Keys and values are
+   field elements. *)
+Record mtree := { t_leaves : list (Z * Z); t_adds : nat; t_fail_at : option nat }.
+Definition fresh_tree : mtree := {| t_leaves := []; t_adds := 0; t_fail_at := None |}.
+(* MerkleTree.Add: a storage failure, or go-merkletree's ErrEntryIndexAlreadyExists *)
+Definition tree_add (t : mtree) (k v : Z) : res mtree :=
+  if match t_fail_at t with Some n => Nat.eqb n (t_adds t) | None => false end
+  then Err "tree storage failure"
+  else if existsb (fun kv => Z.eqb (fst kv) k) (t_leaves t) then Err "entry index already exists"
+  else Ok {| t_leaves := t_leaves t ++ [(k, v)]; t_adds := S (t_adds t); t_fail_at := t_fail_at t |}.
+(* the same tree after an Add that failed *)
+Definition tree_skip (t : mtree) : mtree :=
+  {| t_leaves := t_leaves t; t_adds := S (t_adds t); t_fail_at := t_fail_at t |}.
+
 (* External code below the modelled level.  E: expanded document, DS: normalised
-   dataset, R: what the caller observes of the merklizer (root, entries), C:
-   compacted document. *)
-Record backend (E DS R C : Type) := {
+   dataset, En: an RDFEntry, C: compacted document. *)
+Record backend (E DS En C : Type) := {
   b_expand  : lview -> json -> res E;   (* JsonLdApi.Expand with SafeMode = false *)
-  b_to_rdf  : E -> res DS;     (* api.ToRDF + URDNA2015 normalisation *)
-  b_merk    : DS -> res R;     (* EntriesFromRDFWithHasher, entries map, AddEntriesToMerkleTree *)
-  b_compact : E -> res C       (* api.Compact against the empty context *)
+  b_to_rdf  : E -> res DS;              (* api.ToRDF + URDNA2015 normalisation *)
+  b_entries : DS -> res (list En);      (* EntriesFromRDFWithHasher (RDF/Model.v: entries_from_rdf) *)
+  b_kv      : En -> res (Z * Z);        (* RDFEntry.KeyValueMtEntries: hashes of path and value *)
+  b_compact : E -> res C                (* api.Compact against the empty context *)
 }.
-Arguments b_expand {E DS R C}.
-Arguments b_to_rdf {E DS R C}.
-Arguments b_merk {E DS R C}.
-Arguments b_compact {E DS R C}.
+Arguments b_expand {E DS En C}.
+Arguments b_to_rdf {E DS En C}.
+Arguments b_entries {E DS En C}.
+Arguments b_kv {E DS En C}.
+Arguments b_compact {E DS En C}.
 
 Section Pipeline.
   (* fuel for context processing *)
   Variable cf : nat.
-  Context {E DS R C : Type} (B : backend E DS R C).
+  Context {E DS En C : Type} (B : backend E DS En C).
 
   (* JsonLdProcessor.expand under options with the given SafeMode and a loader
      answering like [ld].  The two modes run the same code except at step 7.3.  In
@@ -708,13 +733,49 @@ Section Pipeline.
     e <- expand (ld_safe_mode opts) (view_compact (ld_document_loader opts)) d ;;
     b_compact B e.
 
+  (* The three places where MerklizeJSONLD / AddEntriesToMerkleTree check an error
+     after the dataset exists.  [faults] switches a check off (all false = the code
+     as it is); the switched-off variants are the seeded changes C15-k and C15-m and
+     only serve as refutation witnesses. *)
+  Record faults := { f_ignore_entries_err : bool; f_ignore_add_err : bool }.
+  Definition no_faults : faults := {| f_ignore_entries_err := false; f_ignore_add_err := false |}.
+
+  (* merklize.go:1414 AddEntriesToMerkleTree: for each entry, KeyValueMtEntries then
+     mt.Add; the first error is returned *)
+  Fixpoint add_entries (fl : faults) (t : mtree) (es : list En) : res mtree :=
+    match es with
+    | [] => Ok t
+    | e :: rest =>
+        kv <- b_kv B e ;;
+        match tree_add t (fst kv) (snd kv) with
+        | Ok t' => add_entries fl t' rest
+        | Err x => if f_ignore_add_err fl then add_entries fl (tree_skip t) rest else Err x
+        | Panic w => Panic w
+        | Diverge => Diverge
+        end
+    end.
+
+  (* merklize.go:1590-1609: EntriesFromRDFWithHasher (error returned), the entries
+     map (needs every key hash), AddEntriesToMerkleTree (error returned).  What the
+     caller gets: the entries and the tree. *)
+  Definition result := (list En * mtree)%type.
+  Definition build (fl : faults) (t0 : mtree) (ds : DS) : res result :=
+    es <- match b_entries B ds with
+          | Err x => if f_ignore_entries_err fl then Ok [] else Err x
+          | r => r
+          end ;;
+    t <- add_entries fl t0 es ;;
+    Ok (es, t).
+
   (* merklize.go:1578-1611: any error of the final Compact is returned *)
-  Definition merklize_doc (safe : bool) (dl : option dloader) (d : json) : res R :=
+  Definition merklize_gen (fl : faults) (safe : bool) (dl : option dloader) (t0 : mtree) (d : json)
+    : res result :=
     let options := new_jsonld_options safe dl in
     ds <- proc_normalize options d ;;
-    r <- b_merk B ds ;;
+    r <- build fl t0 ds ;;
     _ <- proc_compact options d ;;
     Ok r.
+  Definition merklize_doc := merklize_gen no_faults.
 
   (* Merklizer fields that matter here; every other option (hasher, tree) is [OOther].
      [mz_ipfs]: the loader loaders.NewDocumentLoader(ipfsCli, ipfsGW) would build, if
@@ -722,23 +783,29 @@ Section Pipeline.
   Record merklizer := {
     mz_safe_mode : bool;
     mz_document_loader : option dloader;
-    mz_ipfs : option dloader
+    mz_ipfs : option dloader;
+    mz_tree : option mtree         (* WithMerkleTree; none: a new in-memory tree *)
   }.
   Inductive mz_option :=
   | WithSafeMode (b : bool)
   | WithDocumentLoader (l : option dloader)      (* nil allowed *)
   | WithIPFS (l : dloader)                       (* WithIPFSClient / WithIPFSGateway *)
+  | WithMerkleTree (t : mtree)
   | OOther.
   Definition apply_option (m : merklizer) (o : mz_option) : merklizer :=
     match o with
-    | WithSafeMode b => {| mz_safe_mode := b; mz_document_loader := mz_document_loader m; mz_ipfs := mz_ipfs m |}
-    | WithDocumentLoader l => {| mz_safe_mode := mz_safe_mode m; mz_document_loader := l; mz_ipfs := mz_ipfs m |}
-    | WithIPFS l => {| mz_safe_mode := mz_safe_mode m; mz_document_loader := mz_document_loader m; mz_ipfs := Some l |}
+    | WithSafeMode b => {| mz_safe_mode := b; mz_document_loader := mz_document_loader m; mz_ipfs := mz_ipfs m; mz_tree := mz_tree m |}
+    | WithDocumentLoader l => {| mz_safe_mode := mz_safe_mode m; mz_document_loader := l; mz_ipfs := mz_ipfs m; mz_tree := mz_tree m |}
+    | WithIPFS l => {| mz_safe_mode := mz_safe_mode m; mz_document_loader := mz_document_loader m; mz_ipfs := Some l; mz_tree := mz_tree m |}
+    | WithMerkleTree t => {| mz_safe_mode := mz_safe_mode m; mz_document_loader := mz_document_loader m; mz_ipfs := mz_ipfs m; mz_tree := Some t |}
     | OOther => m
     end.
   (* merklize.go:1547: mz := &Merklizer{safeMode: true}; for _, o := range opts { o(mz) } *)
   Definition new_merklizer (opts : list mz_option) : merklizer :=
-    fold_left apply_option opts {| mz_safe_mode := true; mz_document_loader := None; mz_ipfs := None |}.
+    fold_left apply_option opts {| mz_safe_mode := true; mz_document_loader := None; mz_ipfs := None; mz_tree := None |}.
+  (* merklize.go:1553: if mz.mt == nil, a new in-memory tree *)
+  Definition get_tree (m : merklizer) : mtree :=
+    match mz_tree m with Some t => t | None => fresh_tree end.
   (* merklize.go:1631 getDocumentLoader; [default] = the process-wide
      defaultDocumentLoader (SetDocumentLoader may have set it to nil) *)
   Definition get_document_loader (default : option dloader) (m : merklizer) : option dloader :=
@@ -746,22 +813,22 @@ Section Pipeline.
     | Some l => Some l
     | None => match mz_ipfs m with Some l => Some l | None => default end
     end.
-  Definition MerklizeJSONLD (default : option dloader) (opts : list mz_option) (d : json) : res R :=
+  Definition MerklizeJSONLD (default : option dloader) (opts : list mz_option) (d : json) : res result :=
     let m := new_merklizer opts in
-    merklize_doc (mz_safe_mode m) (get_document_loader default m) d.
+    merklize_doc (mz_safe_mode m) (get_document_loader default m) (get_tree m) d.
 
   (* verifiable/credential.go:449 W3CCredential.Merklize: the credential is
      marshalled, "proof" deleted, and the options are passed on unchanged.
      [vc_doc] is the document that results (abstract: encoding/json). *)
-  Definition W3CCredential_Merklize (default : option dloader) (vc_doc : json) (opts : list mz_option) : res R :=
+  Definition W3CCredential_Merklize (default : option dloader) (vc_doc : json) (opts : list mz_option) : res result :=
     MerklizeJSONLD default opts vc_doc.
   (* credential.go:494-511 ToCoreClaim: nil options -> MerklizerOpts nil *)
   Definition ToCoreClaim_merklize (default : option dloader) (vc_doc : json)
-             (core_opts : option (list mz_option)) : res R :=
+             (core_opts : option (list mz_option)) : res result :=
     W3CCredential_Merklize default vc_doc (match core_opts with Some o => o | None => [] end).
   (* credential.go:64,91-127 VerifyProof -> verifyCredentialCoreClaim -> ToCoreClaim
      with verifyConfig.merklizeOptions (no public option sets it: nil) *)
   Definition VerifyProof_merklize (default : option dloader) (vc_doc : json)
-             (merklize_options : list mz_option) : res R :=
+             (merklize_options : list mz_option) : res result :=
     ToCoreClaim_merklize default vc_doc (Some merklize_options).
 End Pipeline.
